@@ -7,7 +7,7 @@ from props import c10_extract
 
 PROP = 'C10'
 TITLE = 'Link-layer envelopes are transparent: Nack, PIT token and wrapped packets'
-LEAN_TARGETS = ['NdnProofs.Props.C10']
+LEAN_TARGETS = ['NdnProofs.Props.C10', 'NdnProofs.Props.C10Bytes']
 THEOREMS = [
     'Ndn.C10.parseLp_wrapped', 'Ndn.C10.lp_transparent', 'Ndn.C10.parseLp_nack', 'Ndn.C10.lp_nack', 'Ndn.C10.parseLp_nack_bare', 'Ndn.C10.lp_nack_bare',
     'Ndn.C10.parseLp_fragmented', 'Ndn.C10.lp_fragment_rejected', 'Ndn.C10.token_roundtrip',
@@ -17,17 +17,38 @@ THEOREMS = [
     'Ndn.C10.parseLp_nack_out_of_order', 'Ndn.C10.lp_nack_out_of_order',
     'Ndn.C10.parseLp_fragmented_general', 'Ndn.C10.lp_fragment_rejected_general',
     'Ndn.C10.parseLp_token_general', 'Ndn.C10.token_general', 'Ndn.C10.token_ascending',
+    # byte level, composed with the packet decoders of the receive pipeline (NdnProofs/Props/C10Bytes.lean): the two models of
+    # TlvModel.parse agree on every byte string, so the theorems are about Ndn.RecvBytes.receiveBytes
+    'Ndn.LpCodec.sim_loop', 'Ndn.LpCodec.lp_schema_eq', 'Ndn.LpCodec.parse_agree', 'Ndn.LpCodec.parseLp_eq_lpDec',
+    'Ndn.C10.decoders_agree', 'Ndn.C10.receiveBytes_eq', 'Ndn.C10.frontends_swallow',
+    'Ndn.C10.bytes_accepted_transparent', 'Ndn.C10.bytes_accepted_dropped', 'Ndn.C10.bytes_rejected_dropped',
+    'Ndn.C10.bytes_transparent', 'Ndn.C10.bytes_nack', 'Ndn.C10.nackVal_reason', 'Ndn.C10.nackVal_empty',
+    'Ndn.C10.parseLp_illegal_header', 'Ndn.C10.illegal_uint_width', 'Ndn.C10.illegal_nested_critical',
+    'Ndn.C10.illegal_nested_width', 'Ndn.C10.bytes_illegal_header_dropped', 'Ndn.C10.bytes_fragment_dropped',
+    'Ndn.C10.parseLp_nack_repeated', 'Ndn.C10.bytes_nack_repeated', 'Ndn.C10.lpDec_elems',
+    'Ndn.C10.parseLp_after_fragment', 'Ndn.C10.bytes_after_fragment_ignored',
+    'Ndn.C10.reply_bytes', 'Ndn.C10.encoders_are_codec', 'Ndn.C10.nack_encoder_is_codec', 'Ndn.C10.reply_parses_back',
+    'Ndn.C10.receiveNet_invoke_token', 'Ndn.C10.token_echo', 'Ndn.C10.no_token_echo',
 ]
 PARTIAL = {}
 TRUSTED = [
-    'C10: Interest and Data decoding are black boxes of the model (as in C06); the envelope layer '
-    '(parse_and_check_tl, TlvModel.parse of LpPacketValue with ignore_critical, nested NetworkNack/CachePolicy, '
-    'UintField/BytesField/BoolField parsing and encoding) is modelled at byte level over the field table generated from '
-    'the live LpPacketValue class',
+    'C10: the envelope layer (parse_and_check_tl, TlvModel.parse of LpPacketValue with ignore_critical, nested '
+    'NetworkNack/CachePolicy, UintField/BytesField/BoolField parsing and encoding) is modelled at byte level over the field '
+    'table generated from the live LpPacketValue class. The first group of theorems (lp_transparent ... token_ascending) '
+    'holds for ARBITRARY Interest / Data decoders; the byte-level group (bytes_*, token_echo, ...) instantiates them with the '
+    'byte-level decoder models of C07 (Ndn.RecvBytes.intDec / dataDec over the schemas generated from the live packet '
+    'classes) - there the enclosed packet is an arbitrary byte string and nothing about it is assumed. That C10\'s envelope '
+    'decoder and the envelope decoder of C06\'s receiveBytes (generic codec over Gen.C07.lp) are the same function on every '
+    'byte string is a theorem (parseLp_eq_lpDec), as is that C10\'s two encoders are TlvModel.encode of the generic codec '
+    '(encoders_are_codec, nack_encoder_is_codec)',
     'C10: the reply closure is modelled before its deadline and with the face up (deadline/return value are property C04)',
-    'C10: optional headers are assumed to carry a legal value when their type is one the format knows (a NonNegativeInteger '
-    'of 1/2/4/8 bytes, a decodable CachePolicy); an illegal one makes the library drop the whole envelope (exercised by the '
-    'mutated decoder stream only). Unknown headers are unrestricted (any type, value, number, position)',
+    'C10: in the transparency / Nack theorems optional headers carry a legal value when their type is one the format knows (a '
+    'NonNegativeInteger of 1/2/4/8 bytes, a decodable CachePolicy); the other side is proved too: the first header with an '
+    'illegal value (wrong width: ValueError; critical unknown sub-element inside Nack / CachePolicy: DecodeError) makes the '
+    'decoder raise exactly that class and both front-ends drop the envelope without effect (parseLp_illegal_header, '
+    'illegal_*, bytes_illegal_header_dropped; generated stream `illegal`). At the top level a critical unknown header is not '
+    'illegal (ignore_critical=True). Unknown headers are unrestricted (any type, value, number, position - also after the '
+    'Fragment: bytes_accepted_transparent / lpDec_elems; generated stream `headers-after-fragment`, judged by the oracle)',
     'C10: lp_transparent covers every list of optional headers (any order, any number). The PIT token is proved to be the '
     'value of the first PitToken header for every envelope whose headers are in increasing type-number order (the NDNLPv2 '
     'order; token_ascending), and more generally whenever only headers unknown to the format precede it (token_general). '
@@ -47,6 +68,12 @@ TRUSTED = [
     'C10: LpPacketValue declares tx_sequence (0x348) before ack (0x344): in an increasing-order envelope `Ack, TxSequence` the '
     'library does not recognise the TxSequence header (observation; the receive pipeline reads neither). The general theorems '
     'hold over the generated table as declared, so Nack, PitToken and Fragment are proved unaffected by it',
+    'C10: a Fragment that is itself an LpPacket is dropped (the library unwraps once: bytes_accepted_dropped); a Fragment whose '
+    'type number cannot be read is dropped; FragIndex / FragCount are rejected by presence (also FragIndex=0, FragCount=1)',
+    'C10 (byte level): SHA-256 is a parameter of the theorems (any function); the element-level theorems need every Type and '
+    'Length below 2^64 (what the TL encoding can express); byte strings that are not a sequence of well-formed elements are '
+    'covered by bytes_accepted_transparent / bytes_rejected_dropped (every byte string the decoder accepts / rejects) and by '
+    'C06.receive_bytes_total',
 ]
 RULE = ('(1) envelopes: every subset/order of the optional headers (PitToken of length 0..40, preceded at most by unknown '
         'lower-type headers such as Sequence/HopCount, '
@@ -68,10 +95,11 @@ RULE = ('(1) envelopes: every subset/order of the optional headers (PitToken of 
         'correspondence only); fragmented envelopes (also increasing-order ones carrying PitToken/Nack/later fields) around '
         'whole packets that would complete a pending Interest / reach a handler (must have no effect); '
         'each packet is delivered bare to one application and wrapped to an identical one (0..3 '
-        'pending Interests, 0..2 handlers) and the observable outcomes are compared. Second hardening round: every well-formed envelope of (1) is also decoded from a bytearray / read-only / writable memoryview, as a bare value with with_tl=False, through the legacy helper parse_lp_packet and through parse_network_nack (same token / reason / enclosed packet, same rejection of fragments); enclosed packets, replies and Nacked Interests whose size takes the Length of the envelope across 253 and 65536; tokens and replies handed over as bytearray / memoryview; 3..5 Interests pending on one name (with and without implicit digest, CanBePrefix and exact) when the Nack arrives; envelopes delivered in a bytearray / memoryview. non-trivial = the case has a header, a '
+        'pending Interests, 0..2 handlers) and the observable outcomes are compared. Second hardening round: every well-formed envelope of (1) is also decoded from a bytearray / read-only / writable memoryview, as a bare value with with_tl=False, through the legacy helper parse_lp_packet and through parse_network_nack (same token / reason / enclosed packet, same rejection of fragments); enclosed packets, replies and Nacked Interests whose size takes the Length of the envelope across 253 and 65536; tokens and replies handed over as bytearray / memoryview; 3..5 Interests pending on one name (with and without implicit digest, CanBePrefix and exact) when the Nack arrives; envelopes delivered in a bytearray / memoryview. Byte-level round: (1d) envelopes with 1..3 unknown headers AFTER the Fragment (plain and Nack; judged), two or three Nack headers with different reasons or undecodable later ones, one header with an illegal value (NonNegativeInteger / NackReason / CachePolicyType of 0/3/5/6/7/9/16 bytes, critical unknown sub-element in Nack / CachePolicy) among legal ones (both compared with the model), known headers / PitToken / Nack / fragmentation fields / a second Fragment written AFTER the Fragment (compared with the model: all skipped); (4) the same inside the front-end stream, plus a Fragment that is itself an envelope and Fragments whose type number is unreadable; in half of the front-end cases with handlers every handler replies at once with a fixed wire and the bytes written to the face are compared with the model (Ndn.Lp.reply over the token receiveBytes hands out) and judged (identical token + unmodified reply, bare without token / on the legacy front-end); every front-end case is also answered by the byte-level pipeline receiveBytes from the envelope bytes alone (effects, bytes sent, who is still pending after each packet). non-trivial = the case has a header, a '
         'token or a pending Interest; distinct = distinct cases')
 
 LP = 0x64
+NOJUDGE = ('ooo-nack', 'repeat-nack', 'illegal', 'late')     # envelope kinds compared with the model only
 tlv, tlnum, read_num, split_tlvs = c6.tlv, c6.tlnum, c6.read_num, c6.split_tlvs
 
 
@@ -219,8 +247,68 @@ def split_token(hs):
     return idx[0], hs[idx[0]][1]
 
 
-def wrap(hs, frag):
-    return tlv(LP, b''.join(tlv(t, v) for t, v in hs) + (tlv(0x50, frag) if frag is not None else b''))
+def wrap(hs, frag, tail=()):
+    """LpPacket{ hs…, Fragment = frag, tail… } (`tail`: elements written after the Fragment)"""
+    return tlv(LP, b''.join(tlv(t, v) for t, v in hs) + (tlv(0x50, frag) if frag is not None else b'') +
+               b''.join(tlv(t, v) for t, v in tail))
+
+
+def gen_late_tail(rng):
+    """elements after the Fragment that are NOT unknown: a late PitToken / Nack / FragIndex / FragCount / second Fragment /
+    known header with any (also illegal) value.  NDNLPv2 puts the Fragment last; the library's in-order scan recognises
+    nothing behind it, so all of them are skipped (model correspondence, not judged)."""
+    out = []
+    for _ in range(rng.choice([1, 1, 2, 3])):
+        t = rng.choice([0x62, 0x320, 0x52, 0x53, 0x50, 0x32c, 0x334, 0x340] + UNKNOWN_ANY[:4])
+        v = rng.choice([known_value(rng, t) if t in KNOWN_ORDER else rand_bytes(rng, rng.randint(0, 4)),
+                        nack_value(rng, rng.choice(REASONS)), rand_bytes(rng, 3)])
+        out.append([t, v])
+    return out
+
+
+def gen_tail(rng):
+    """1..3 headers of types the format does not have, to be written AFTER the Fragment (ignored like any unknown header)"""
+    return [[rng.choice(UNKNOWN_ANY), rand_bytes(rng, rng.randint(0, 5))] for _ in range(rng.choice([1, 1, 2, 3]))]
+
+
+BAD_WIDTHS = [0, 3, 5, 6, 7, 9, 16]
+
+
+def gen_illegal(rng):
+    """(headers, description): optional headers in increasing order, one of them with an ILLEGAL value - a NonNegativeInteger
+    header / NackReason / CachePolicyType of a width other than 1/2/4/8, or a critical (odd) unknown sub-element inside a
+    Nack / CachePolicy header.  The library raises (ValueError / DecodeError) and drops the whole envelope."""
+    hs, _ = gen_ascending(rng, token='maybe')
+    hs = [h for h in hs if h[0] not in (0x320, 0x334)]
+    what = rng.choice(['uint', 'uint', 'reason', 'reason', 'nack-critical', 'cp-width', 'cp-critical'])
+    bad = rand_bytes(rng, rng.choice(BAD_WIDTHS))
+    if what == 'uint':
+        t = rng.choice([0x32c, 0x330, 0x340])
+        hs = [h for h in hs if h[0] != t] + [[t, bad]]
+    elif what == 'reason':
+        pre = [tlv(0x322, b'x')] if rng.random() < 0.3 else []
+        hs.append([0x320, b''.join(pre) + tlv(0x321, bad)])
+    elif what == 'nack-critical':
+        hs.append([0x320, tlv(0x321, c6_uint(rng.choice(REASONS))) + tlv(rng.choice([0x323, 0x325, 0x21]), rand_bytes(rng, 2))])
+    elif what == 'cp-width':
+        hs.append([0x334, tlv(0x335, bad)])
+    else:
+        hs.append([0x334, tlv(rng.choice([0x337, 0x21]), b'')])
+    hs.sort(key=lambda h: h[0])
+    return hs, what
+
+
+def gen_repeated_nack(rng):
+    """(headers, first reason): increasing-order headers with TWO (or three) Nack headers carrying different reasons; the
+    later ones may be undecodable.  TlvModel.parse takes the first and skips the rest as unknown elements."""
+    r1 = rng.choice(REASONS + [None])
+    hs, tok = gen_ascending(rng, nack=nack_value(rng, r1), token='maybe')
+    for _ in range(rng.choice([1, 1, 2])):
+        r2 = rng.choice([x for x in REASONS if x != r1])
+        nv2 = rng.choice([nack_value(rng, r2), nack_value(rng, r2), tlv(0x321, rand_bytes(rng, 3)), tlv(0x323, b'')])
+        hs.append([0x320, nv2])
+    hs.sort(key=lambda h: h[0])
+    return hs, r1, tok
 
 
 def hs_json(hs):
@@ -307,6 +395,29 @@ def cases(rng, tier):
         reason = rng.choice(REASONS)
         yield {'k': 'lp', 'w': wrap([[0x320, nack_value(rng, reason, extra=False)]], blob).hex(),
                'spec': {'kind': 'nack', 'reason': reason, 'tok': None, 'frag': blob.hex(), 'asc': True}}
+    # (1d) byte-level composition: unknown headers AFTER the Fragment (ignored like any unknown header: judged); several
+    # Nack headers / headers with illegal values / a Fragment that is itself an envelope (model correspondence, not judged)
+    for _ in range(300 if quick else 6000):
+        frag = rng.choice(nets)
+        r = rng.random()
+        if r < 0.4:
+            hs, tok = gen_ascending(rng) if rng.random() < 0.5 else gen_headers(rng)
+            yield {'k': 'lp', 'w': wrap(hs, frag, gen_tail(rng)).hex(),
+                   'spec': {'kind': 'plain', 'tok': None if tok is None else tok.hex(), 'frag': frag.hex(), 'tail': True}}
+        elif r < 0.6:
+            reason = rng.choice(REASONS + [None])
+            hs, tok = gen_ascending(rng, nack=nack_value(rng, reason))
+            yield {'k': 'lp', 'w': wrap(hs, frag, gen_tail(rng)).hex(),
+                   'spec': {'kind': 'nack', 'reason': reason, 'tok': None if tok is None else tok.hex(), 'frag': frag.hex(), 'tail': True}}
+        elif r < 0.72:
+            hs, r1, tok = gen_repeated_nack(rng)
+            yield {'k': 'lp', 'w': wrap(hs, frag, gen_tail(rng) if rng.random() < 0.2 else ()).hex(), 'spec': {'kind': 'repeat-nack'}}
+        elif r < 0.84:
+            hs, tok = gen_ascending(rng, nack=nack_value(rng, rng.choice(REASONS)) if rng.random() < 0.3 else None)
+            yield {'k': 'lp', 'w': wrap(hs, frag, gen_late_tail(rng)).hex(), 'spec': {'kind': 'late'}}
+        else:
+            hs, what = gen_illegal(rng)
+            yield {'k': 'lp', 'w': wrap(hs, frag).hex(), 'spec': {'kind': 'illegal', 'what': what}}
     for w in [b'', b'\x64', b'\x64\x00', tlv(LP, tlv(0x50, b'')), tlv(LP, tlv(0x320, b'')), tlv(LP, tlv(0x320, tlv(0x321, b''))),
               tlv(LP, tlv(0x320, tlv(0x321, b'\x00\x00\x00'))), tlv(LP, tlv(0x320, tlv(0x323, b'\x01')) + tlv(0x50, b'\x05\x00')),
               tlv(LP, tlv(0x62, b'\x01') + tlv(0x62, b'\x02') + tlv(0x50, b'\x05\x00')), tlv(5, b''), tlv(LP, tlv(0x50, b'\x05\x00')) + b'\x00',
@@ -424,10 +535,40 @@ def cases(rng, tier):
                     # increasing type order, any other headers (PitToken, Nack, known later fields) behind them
                     hs, _ = gen_ascending(rng, frag=which, nack=nack_value(rng, rng.choice(REASONS)) if rng.random() < 0.4 else None)
                 pkts.append({'p': rng.choice(nets).hex(), 'hdrs': hs_json(hs), 'nack': None, 'frag': True})
+            elif rng.random() < 0.14:
+                # byte-level composition (model correspondence, not judged by the oracle): several Nack headers; a header
+                # with an illegal value in front of a packet that would have an effect; a Fragment that is itself an
+                # envelope; a Fragment whose type number cannot be read
+                kind = rng.choice(['repeat', 'repeat', 'illegal', 'illegal', 'nested', 'unreadable', 'late'])
+                if kind == 'repeat':
+                    hs, r1, _ = gen_repeated_nack(rng)
+                    nint = interest_for(rng.choice(pend)) if pend and rng.random() < 0.7 else P['int']
+                    pkts.append({'p': nint.hex(), 'hdrs': hs_json(hs), 'nack': None, 'nj': 'repeat-nack', 'env': True})
+                elif kind == 'illegal':
+                    hs, what = gen_illegal(rng)
+                    q = interest_for(rng.choice(pend)) if pend and what in ('reason', 'nack-critical') else rng.choice(nets)
+                    pkts.append({'p': q.hex(), 'hdrs': hs_json(hs), 'nack': None, 'nj': 'illegal', 'env': True})
+                elif kind == 'late':
+                    hs, _ = gen_ascending(rng)
+                    pkts.append({'p': p.hex(), 'hdrs': hs_json(hs), 'nack': None, 'nj': 'late', 'env': True,
+                                 'tail': hs_json(gen_late_tail(rng))})
+                elif kind == 'nested':
+                    hs, _ = gen_ascending(rng)
+                    pkts.append({'p': wrap([], rng.choice(nets)).hex(), 'hdrs': hs_json(hs), 'nack': None, 'nj': 'nested', 'env': True})
+                else:
+                    hs, _ = gen_ascending(rng)
+                    pkts.append({'p': rng.choice([b'', b'\xfd', b'\xfe\x00\x01', b'\xff']).hex(), 'hdrs': hs_json(hs), 'nack': None,
+                                 'nj': 'unreadable', 'env': True})
             else:
                 hs, tok = gen_headers(rng) if rng.random() < 0.65 else gen_ascending(rng)
                 pkts.append({'p': p.hex(), 'hdrs': hs_json(hs), 'nack': None})
+            if rng.random() < 0.15 and not pkts[-1].get('frag') and not pkts[-1].get('ooo') and 'tail' not in pkts[-1]:
+                pkts[-1]['tail'] = hs_json(gen_tail(rng))       # unknown headers after the Fragment
         case = {'k': 'recv', 'fe': fe, 'pend': pend, 'hand': hand, 'pkts': pkts}
+        if hand and rng.random() < 0.5:
+            # every handler replies at once with these bytes: the bytes written to the face are compared with the model
+            case['reply'] = rng.choice([P['data/a'], P['data/a/b'], P['data-long'], b'\x06\x00', b'\x06\x02\x07\x00',
+                                        tlv(6, rand_bytes(rng, rng.choice([240, 250, 252, 253, 300])))]).hex()
         if rng.random() < 0.2:
             case['rx'] = rng.choice(FORMS[1:])          # the face hands the packets over in a bytearray / memoryview
         yield case
@@ -638,17 +779,22 @@ def _one_run(case, wrapped):
                     invoked.append([c6._comps(enc.Name.from_str(h)), c6._comps(name),
                                     None if app_param is None else bytes(app_param).hex(),
                                     None if tok is None else (bytes(tok).hex() or '-')])
+                    if case.get('reply') is not None:
+                        reply(bytes.fromhex(case['reply']))
                 app.attach_handler(h, handler, v2_validator)
             else:
                 def handler1(name, param, app_param, h=h):
                     invoked.append([c6._comps(enc.Name.from_str(h)), c6._comps(name),
                                     None if app_param is None else bytes(app_param).hex(), None])
+                    if case.get('reply') is not None:
+                        app.put_raw_packet(bytes.fromhex(case['reply']))
                 app.set_interest_filter(h, handler1, v1_validator)
         trace = []
         for pk in case['pkts']:
             p = bytes.fromhex(pk['p'])
-            if wrapped or pk['nack'] is not None or pk.get('frag'):
-                w = wrap(hs_unjson(pk['hdrs']), p)       # a Nack envelope has no bare counterpart: both runs get it
+            if wrapped or pk['nack'] is not None or pk.get('frag') or pk.get('env'):
+                # a Nack envelope has no bare counterpart: both runs get it
+                w = wrap(hs_unjson(pk['hdrs']), p, hs_unjson(pk.get('tail', [])))
             else:
                 w = p
             before = dict(outcomes)
@@ -658,7 +804,9 @@ def _one_run(case, wrapped):
             rec = {'exc': None if e is None else c6.cls_name(type(e).__name__),
                    'bg': [c6.cls_name(x[0]) for x in loop.errors[err0:]],
                    'done': {str(i): o for i, o in outcomes.items() if i not in before},
-                   'invoked': invoked[inv0:], 'sent': len(rig.face.sent) - s0}
+                   'invoked': invoked[inv0:], 'sent': len(rig.face.sent) - s0,
+                   'sent_hex': [bytes(x).hex() for x in rig.face.sent[s0:]],
+                   'pending': sorted(i for i in range(len(case['pend'])) if i not in outcomes)}
             if wrapped:
                 rec['dec'] = c6.decode_outcomes(rig, p, c6.first_type(p))
             trace.append(rec)
@@ -678,7 +826,7 @@ def run_impl(case):
     k = case['k']
     if k == 'lp':
         r = {'obs': lp_obs(bytes.fromhex(case['w']))}
-        if case['spec'] is not None and case['spec']['kind'] != 'ooo-nack':
+        if case['spec'] is not None and case['spec']['kind'] not in NOJUDGE:
             r['alt'] = lp_alt(bytes.fromhex(case['w']))
         return r
     if k == 'nack':
@@ -723,8 +871,9 @@ def model_line(case, impl):
     fib = ';'.join(impl['fib0']) or '.'
     toks = []
     for pk, rec in zip(case['pkts'], impl['wrapped']):
-        w = wrap(hs_unjson(pk['hdrs']), bytes.fromhex(pk['p']))
-        toks.append(f"{LP},{w.hex()},{rec['dec']['int']},{rec['dec']['data']}")
+        w = wrap(hs_unjson(pk['hdrs']), bytes.fromhex(pk['p']), hs_unjson(pk.get('tail', [])))
+        toks.append(f"{LP},{w.hex()},{rec['dec']['int']},{rec['dec']['data']}" +
+                    ('' if case.get('reply') is None else ',' + (case['reply'] or '-')))
     return f"C10 recv {case['fe']} {pit} {fib} " + ' '.join(toks)
 
 
@@ -737,10 +886,19 @@ def model_obs(answer, case, impl):
         body = answer[3:]
         return [] if body == '.' else [('' if x == '-' else x) for x in body.split(',')]
     toks = answer.split(' ')
+    cut = toks.index('#') if '#' in toks else len(toks)
     out = []
-    for t in toks[:-1]:
+    for t in toks[:cut - 1]:
         out.append(['err', t[4:]] if t.startswith('err:') else ['ok', sorted([] if t[3:] == '-' else t[3:].split('+'))])
-    return out
+    # the byte-level pipeline (receiveBytes): effects incl. the bytes each reply closure writes, and who is still pending
+    byt = []
+    for t in toks[cut + 1:]:
+        if t.startswith('err:'):
+            byt.append(['err', t[4:]])
+        else:
+            effs, pit = t[3:].split('^')
+            byt.append(['ok', sorted([] if effs == '-' else effs.split('+')), sorted(int(x) for x in re.findall(r'(?:=|\+)(\d+)/', pit))])
+    return [[a, b] for a, b in zip(out, byt)] if len(out) == len(byt) else {'abstract': out, 'bytes': byt}
 
 
 def impl_obs(impl):
@@ -748,19 +906,25 @@ def impl_obs(impl):
         return impl['obs']
     if 'sent' in impl:
         return [x for s in impl['sent'] for x in s]
-    steps = []
+    steps, byt = [], []
     for rec in impl['wrapped']:
         err = rec['exc'] or (rec['bg'][0] if rec['bg'] else None)
         if err:
             steps.append(['err', err])
+            byt.append(['err', err])
             continue
-        effs = []
+        effs, effb = [], []
         for i, o in rec['done'].items():
             effs.append(f'N{i}:{o[1]}' if o[0] == 'nack' else (f'S{i}' if o[0] == 'data' else f'X{i}:{o[1]}'))
+        effb = list(effs)
+        sent = list(rec.get('sent_hex', []))
         for pfx, name, ap, tok in rec['invoked']:
             effs.append(f"I{pfx}:{'~' if tok is None else tok}")
+            effb.append(effs[-1] + (('>' + (sent.pop(0) or '-')) if sent else ''))
+        effb += ['sent:' + x for x in sent]            # anything written to the face that no handler reply accounts for
         steps.append(['ok', sorted(effs)])
-    return steps
+        byt.append(['ok', sorted(effb), rec.get('pending', [])])
+    return [[a, b] for a, b in zip(steps, byt)]
 
 
 # --------------------------------------------------------------------------------------------- oracle
@@ -788,7 +952,7 @@ def oracle(case, impl):
         if sp is None:
             return None
         o = impl['obs']
-        if sp['kind'] == 'ooo-nack':
+        if sp['kind'] in NOJUDGE:
             return None
         alt = impl.get('alt', {})
         for f in FORMS[1:] + ['notl']:
@@ -881,7 +1045,7 @@ def oracle(case, impl):
             return None              # reception failing on the bare packet is C06's finding, not a transparency issue
         if w['exc'] or w['bg']:
             return f"{fe}: receiving envelope {n} failed with {w['exc'] or w['bg'][0]}"
-        if pk.get('ooo'):
+        if pk.get('ooo') or pk.get('nj'):
             continue
         if pk.get('frag'):
             if w['done'] or w['invoked'] or w['sent']:
@@ -902,6 +1066,20 @@ def oracle(case, impl):
             for x in b['invoked']:
                 if x[3] is not None:
                     return f'{fe}: bare Interest reached the handler with a token'
+            if case.get('reply') is not None and w['invoked'] and 'sent_hex' in w:
+                # every reply is sent in an envelope that carries the identical token and the reply bytes unmodified;
+                # without a token (and by the legacy front-end, which has no tokens) it is sent bare
+                if len(w['sent_hex']) != len(w['invoked']):
+                    return f"{fe}: {len(w['invoked'])} handler replies to packet {n} wrote {len(w['sent_hex'])} packets to the face"
+                for sx in w['sent_hex']:
+                    if want_tok is None:
+                        if sx != case['reply']:
+                            return f'{fe}: reply to the Interest in envelope {n} (no PIT token) was not sent bare and unmodified'
+                    else:
+                        els = strict_envelope(bytes.fromhex(sx))
+                        if els is None or [(t, v.hex()) for t, v in els] != [(0x62, tok), (0x50, case['reply'])]:
+                            return (f'{fe}: reply to the Interest in envelope {n} does not carry exactly the identical token and '
+                                    f'the unmodified reply bytes')
         else:
             d = w['dec']
             if d['int'].startswith('E:'):
@@ -935,7 +1113,9 @@ def tags(case, impl):
     k = case['k']
     t = ['kind:' + k]
     if k == 'lp':
-        t.append('lp:' + ('mutated' if case['spec'] is None else case['spec']['kind'] + (':ascending' if case['spec'].get('asc') else '')))
+        t.append('lp:' + ('mutated' if case['spec'] is None else case['spec']['kind'] + (':ascending' if case['spec'].get('asc') else '') +
+                          (':headers-after-fragment' if case['spec'].get('tail') else '') +
+                          (':' + case['spec']['what'] if case['spec'].get('what') else '')))
         t.append('lp-result:' + impl['obs'].split(' ')[0] + ('' if impl['obs'].startswith('ok') else ':' + impl['obs'][4:]))
     elif k == 'put':
         t.append('toklen:%d' % (len(case['tok']) // 2))
@@ -955,7 +1135,12 @@ def tags(case, impl):
             t.append(case['fe'] + ':crowded-name')
         for pk, w in zip(case['pkts'], impl['wrapped']):
             t.append('pkt:' + ('nack' if pk['nack'] is not None else 'fragmented' if pk.get('frag') else
-                               'out-of-order-nack' if pk.get('ooo') else 'wrapped') + ':hdrs%d' % min(len(pk['hdrs']), 6))
+                               'out-of-order-nack' if pk.get('ooo') else pk['nj'] if pk.get('nj') else 'wrapped') +
+                     ':hdrs%d' % min(len(pk['hdrs']), 6))
+            if pk.get('tail'):
+                t.append('pkt:headers-after-fragment')
+            if case.get('reply') is not None and w['invoked']:
+                t.append('handler-replies:' + ('in-envelope' if w['invoked'][0][3] else 'bare'))
             types = [h[0] for h in pk['hdrs']]
             if len(types) > 1 and types == sorted(types):
                 t.append('increasing-order:' + ('nack' if pk['nack'] is not None else 'fragmented' if pk.get('frag') else 'wrapped'))
@@ -988,7 +1173,17 @@ def finding_key(case, impl, why):
     return w[:70]
 
 
-LEVEL_TEXT = ('Lean 4 theorems over a byte-level model of the envelope decoder/encoder (parse_lp_packet_v2, make_network_nack, '
+LEVEL_TEXT = ('[byte level] the envelope decoder model of C10 and the one inside the byte-level receive pipeline of C06 (generic '
+              'codec of C07 over the generated LpPacketValue schema) are proved to be the same function on every byte string '
+              '(simulation of the two scan loops); hence for EVERY byte string p and every accepted envelope without '
+              'fragmentation / Nack around it receiveBytes(envelope) = receiveBytes(p) up to the PIT token handed to handlers '
+              '(same state change, completions, invocations, same drop when p is malformed; nested envelope / unreadable type '
+              'dropped); a Nack envelope around ANY bytes completes exactly the Interests named by the decoded Interest with '
+              'exactly the reason of the header bytes (every width, none = 0) and is dropped when the bytes are no Interest; '
+              'illegal header values, fragmentation fields: dropped, with the exception class; later Nack headers ignored; '
+              'reply bytes = LpPacket{PitToken=t, Fragment=r} exactly, = TlvModel.encode of the generic codec, and parse back '
+              'to (t, r); end to end from the envelope bytes to the bytes of the reply (token_echo). [abstract decoders] '
+              'Lean 4 theorems over a byte-level model of the envelope decoder/encoder (parse_lp_packet_v2, make_network_nack, '
               '_put_raw_packet_with_pit_token; field table generated from the live LpPacketValue class) composed with the '
               'receive pipeline model of C06: wrapped = bare for every network packet and every list of optional headers '
               '(known or unknown, any order) in every table state; a Nack header anywhere the decoder\'s in-order scan '
@@ -1002,10 +1197,13 @@ LEVEL_TEXT = ('Lean 4 theorems over a byte-level model of the envelope decoder/e
               'execution of the compiled model against '
               'parse_lp_packet_v2 / the encoders / both NDNApp front-ends, plus the property oracle on the implementation '
               '(bare-vs-wrapped twin applications, strict independent envelope decoder for face output).')
-LEVEL_NOTE = ('Proofs are about the model; model = code is sampled. Interest/Data decoding abstract. Known headers are assumed '
-              'to carry legal values, one Nack header per envelope; envelopes that violate the NDNLPv2 header order '
-              '(PitToken/FragIndex/FragCount/Nack behind a later field) are handled by the library as if the late header were '
-              'unknown - proved for Nack, observations reported.')
+LEVEL_NOTE = ('Proofs are about the model; model = code is sampled. Byte level: the enclosed packet is an arbitrary byte string '
+              'decoded by the C07 decoder models (receiveBytes); illegal header values and repeated Nack headers are proved as '
+              'the code behaves (envelope dropped with the class of the first illegal header; the first Nack header decides, '
+              'later ones are skipped - the property statement does not constrain which of several Nack headers counts, so the '
+              'oracle does not judge those envelopes). Envelopes that violate the NDNLPv2 header order (PitToken/FragIndex/'
+              'FragCount/Nack behind a later field, anything but unknown headers behind the Fragment) are handled by the '
+              'library as if the late header were unknown - proved for Nack, observations reported.')
 TECHNIQUE = ('Lean 4 proof (refinement byte loop -> element fold by induction, induction over header lists and histories, '
              'table facts by decide) + generated table from live class + model/implementation correspondence check')
 DESIGN_REF = 'DESIGN.md section 7, C10'
